@@ -251,7 +251,14 @@ def readUntilImageData (cfg : Cfg) (t : TCfg) (r : R) : R × Except Res Unit :=
         | none => (r3, .error (.panic "unreachable!(bpp) (common.rs:846)"))
         | some bpp => ({ r3 with sub := Sub.new i, bpp := bpp, ub := UB.new }, .ok ())
 
-/-- `Decoder::read_info` (mod.rs:190-236) -/
+/-- `color.checked_raw_row_length(depth, width).and_then(|rowlen| (rowlen - 1).checked_mul(height)).is_some()`
+    (mod.rs:227-229): the output buffer of a `width` x `height` image of output type `cd` fits `usize` -/
+def sizeFits (cd : Nat × Nat) (width height : Nat) : Bool :=
+  match checkedRawRowLength cd.1 cd.2 width with
+  | some rl => decide ((rl - 1) * height < 2 ^ 64)
+  | none => false
+
+/-- `Decoder::read_info` (mod.rs:190-250) -/
 def readInfo' (cfg : Cfg) (t : TCfg) (r : R) : R × Res :=
   if r.isReader then (r, .panic "model: read_info called twice") else
   match readHeaderInfo cfg (fuelOf r) r with
@@ -273,10 +280,14 @@ def readInfo' (cfg : Cfg) (t : TCfg) (r : R) : R × Res :=
           match infoOf r2 with
           | none => (r2, .panic "info().unwrap()")
           | some i2 =>
-            let rem := match i2.actl with
-              | none => 1
-              | some (nf, _) => max 1 (if i2.fctl.isNone then nf + 1 else nf)
-            ({ r2 with remaining := rem }, .header)
+            -- a `tRNS` chunk in front of the image data can widen the output pixels: the size of the output buffer is
+            -- checked again with the final output type and the IHDR size read above (repair f60364d, mod.rs:224-232)
+            if sizeFits (t.outColorDepth i2 r2.flags) i.width i.height then
+              let rem := match i2.actl with
+                | none => 1
+                | some (nf, _) => max 1 (if i2.fctl.isNone then nf + 1 else nf)
+              ({ r2 with remaining := rem }, .header)
+            else (r2, .err .limits "LimitsExceeded")
       | _, _ => (r', .err .limits "LimitsExceeded")
 
 def readInfo (cfg : Cfg) (t : TCfg) (r : R) : R × Res :=
@@ -535,5 +546,56 @@ def run (cfg : Cfg) (t : TCfg) (r : R) (ops : List Op) : R × List Res :=
 
 def R.init (opts : Options) (limit : Nat) (flags : Flags) (input : Bytes) (visible : Nat) : R :=
   { dec := { opts := opts, limit := limit }, input := input, visible := visible, flags := flags }
+
+/-! ## Getters of the `Reader` whose arithmetic is unchecked (`usize`, 64 bit)
+
+They change no state, so they are not `Op`s of `step`: a caller may call them between any two calls.  Sizes are `Nat`
+everywhere else in this model; here a product that does not fit `usize` is the explicit `panic` result (overflow checks
+on; without them the value wraps silently — equally a violation of the documented meaning of the getter). -/
+
+/-- the result of a size getter -/
+inductive GRes
+  | value (n : Nat)
+  | panic (site : String)
+deriving Repr, DecidableEq
+
+def GRes.isPanic : GRes → Bool
+  | .panic _ => true
+  | .value _ => false
+
+/-- `Reader::output_line_size(width)` (mod.rs:666-669): `color.raw_row_length_from_width(depth, width) - 1` with the output
+    type; `raw_row_length_from_width` (common.rs:59-72) is unchecked `usize` arithmetic — `width as usize * samples`, `* 2`,
+    `1 + …`, every intermediate value at most the final one — and at least 1, so the subtraction cannot underflow -/
+def outputLineSizeGetter (t : TCfg) (r : R) (width : Nat) : GRes :=
+  match infoOf r with
+  | none => .panic "info().unwrap()"
+  | some i =>
+    let cd := t.outColorDepth i r.flags
+    if rawRowLengthFromWidth cd.1 cd.2 width ≥ 2 ^ 64 then
+      .panic "raw_row_length_from_width: usize overflow (common.rs:59-72)"
+    else .value (rawRowLengthFromWidth cd.1 cd.2 width - 1)
+
+/-- `Reader::output_buffer_size()` (mod.rs:659-663): `self.output_line_size(width) * height as usize`, unchecked -/
+def outputBufferSizeGetter (t : TCfg) (r : R) : GRes :=
+  match infoOf r with
+  | none => .panic "info().unwrap()"
+  | some i =>
+    match outputLineSizeGetter t r i.width with
+    | .panic s => .panic s
+    | .value size =>
+      if size * i.height ≥ 2 ^ 64 then .panic "attempt to multiply with overflow: size * height (mod.rs:662)"
+      else .value (size * i.height)
+
+/-- `Info::raw_bytes()` (common.rs:787-790, repair 4faadfc): `(self.height as usize).saturating_mul(self.raw_row_length())`;
+    `raw_row_length()` includes the filter byte of each row and is about the IMAGE type (not the output type); for a
+    `u32` width it is at most 8 · 2^32 + 1.  Total: no panic site. -/
+def rawBytes (i : Info) : Nat :=
+  min (i.height * rawRowLengthFromWidth i.color i.depth i.width) (2 ^ 64 - 1)
+
+/-- `reader.info().raw_bytes()` -/
+def rawBytesGetter (r : R) : GRes :=
+  match infoOf r with
+  | none => .panic "info().unwrap()"
+  | some i => .value (rawBytes i)
 
 end Png.Reader
